@@ -239,3 +239,42 @@ def reply_code_use():
             if other is not cls and issubclass(cls, other):
                 cross.append('%d caught as %d' % (code, code2))
     return {'changed_by_subclassing': changed, 'not_raisable': bad, 'cross_caught': cross, 'subclasses': len(subs)}
+
+
+def _outcome(f):
+    try:
+        return ['return', f()]
+    except Exception as exc:       # noqa: BLE001 - the class is the observation
+        return ['raise', type(exc).__name__]
+
+
+def session_remarshal(classname, attrs, changes, channel):
+    """Encode, change attributes, encode again: the second encoding must be what a new object holding the same
+    (changed) attribute values gives - an encoding depends on the current values only."""
+    from pamqp import frame
+    cls = _cls(classname)
+    obj = cls(**attrs)
+    first = _outcome(lambda: frame.marshal(obj, channel))
+    for k, v in changes.items():
+        setattr(obj, k, v)
+    second = _outcome(lambda: frame.marshal(obj, channel))
+    other = cls(**attrs)
+    for k, v in changes.items():
+        setattr(other, k, v)
+    third = _outcome(lambda: frame.marshal(other, channel))
+    return {'first': first, 'second': second, 'must_hold': {'re-encoding after a change == encoding of an equal new object': second == third}}
+
+
+def session_table_repair(table, path):
+    """A table whose nested container ends in an unencodable value: encoding fails; after the caller removes that value
+    the SAME objects must encode exactly like an equal, newly built table."""
+    import copy
+    from pamqp import encode
+    first = _outcome(lambda: encode.field_table(table))
+    node = table
+    for k in path:
+        node = node[k]
+    node.pop()
+    second = _outcome(lambda: encode.field_table(table))
+    third = _outcome(lambda: encode.field_table(copy.deepcopy(table)))
+    return {'first': first, 'second': second, 'must_hold': {'repaired table encodes like an equal new table': second == third}}
